@@ -1,19 +1,21 @@
 SPECIFICATION Spec
 CONSTANTS
-  Sizes <- SizesTiny
+  Sizes <- SizesAround
   Ds = {2}
-  Layerings <- LayAll
+  Layerings = {"flat"}
   Caps = {4}
-  Modes <- ModesAll
-  Seqs <- SeqsTiny
+  Modes = {"late"}
+  Seqs <- SeqsAround
   MaxSeps = {1}
-  Tasks <- TasksAll
+  Tasks = {"around"}
   EnvShift = 0
   SkipLastBond = FALSE
-  DropInnerTag = FALSE
-  Targets <- TargetsQuick
+  DropInnerTag = TRUE
+  Targets <- TargetsAround
   CrossedBound = FALSE
   StoreByRef = FALSE
   Emit = FALSE
+INVARIANT WholeCovered
+INVARIANT AroundOK
 INVARIANT SelectUnique
 CHECK_DEADLOCK FALSE
